@@ -157,7 +157,7 @@ func buildFit(im *image, pl fitPlan, lo, hi int) []fitEnt {
 			case 0:
 				e.Addr = im.phys(0) - uint64(16*(1+rng.Intn(64))) // below the image
 			case 1:
-				e.Addr = im.phys(len(im.Bytes)-16*(1+rng.Intn(4))) // straddles the end
+				e.Addr = im.phys(len(im.Bytes) - 16*(1+rng.Intn(4))) // straddles the end
 				e.Size = uint32(8 + rng.Intn(8))
 			case 2:
 				e.Addr |= uint64(1+rng.Intn(3)) << 32 // truncated by uint32()
@@ -248,9 +248,8 @@ func genCoreboot(pl fitPlan) *image {
 	}
 	im := &image{Name: "coreboot", Bytes: newPatImage(n), RegionEnd: n, RegionBeg: cbOff, FitOK: true, IsCbfs: true, CbfsOff: uint32(cbOff)}
 	areas := []fmapArea{{"FMAP", 0x100, 0x200}, {"RW_MISC", 0x400, 0x400}, {"COREBOOT", uint32(cbOff), uint32(n - cbOff)}}
-	if rng.Intn(2) == 0 {
-		areas[0], areas[1] = areas[1], areas[0]
-	}
+	// any directory order: COREBOOT first (index 0), in the middle, last
+	rng.Shuffle(len(areas), func(i, j int) { areas[i], areas[j] = areas[j], areas[i] })
 	putFMAP(im.Bytes, 0x100, areas)
 	im.Lay = layout{Kind: "coreboot", Off: uint32(cbOff), Size: uint32(n - cbOff)}
 	// files: random mix; the bootblock last, reaching the end of the area
@@ -563,16 +562,16 @@ func d9Bites(im *image, segs []seg) bool {
 }
 
 type segInput struct {
-	Image  string `json:"image"`
-	Layout layout `json:"layout"`
-	Len    int    `json:"len"`
-	Ver    int    `json:"ver,omitempty"`
-	Alg    string `json:"alg,omitempty"`
-	Segs   []seg  `json:"segs,omitempty"`
-	Fit    []fitEnt `json:"fit,omitempty"`
+	Image  string     `json:"image"`
+	Layout layout     `json:"layout"`
+	Len    int        `json:"len"`
+	Ver    int        `json:"ver,omitempty"`
+	Alg    string     `json:"alg,omitempty"`
+	Segs   []seg      `json:"segs,omitempty"`
+	Fit    []fitEnt   `json:"fit,omitempty"`
 	Cbfs   []cbfsFile `json:"cbfs,omitempty"`
-	Flags  uint16 `json:"flags,omitempty"`
-	Extra  string `json:"extra,omitempty"`
+	Flags  uint16     `json:"flags,omitempty"`
+	Extra  string     `json:"extra,omitempty"`
 }
 
 // ------------------------------------------------------------------ case kinds
@@ -633,16 +632,29 @@ func segsEqual(a, b []seg) bool {
 func caseSegments(im *image) (ver int, got []seg, ok bool) {
 	ver = 1 + rng.Intn(2)
 	flags := pick[uint16](0, 0, 1, 2, uint16(rng.Intn(1<<16)))
+	// manifests with several SE elements: the list must land in the requested one only
 	nSE, seIdx := 1, 0
-	if rng.Intn(25) == 0 {
-		nSE, seIdx = pick(1, 2), pick(1, 2, 3)
+	switch rng.Intn(8) {
+	case 0, 1:
+		nSE = pick(2, 2, 3)
+		seIdx = rng.Intn(nSE)
+	case 2:
+		if rng.Intn(3) == 0 {
+			nSE, seIdx = pick(1, 2), pick(2, 3) // caller error: no such SE element
+		}
 	}
 	b := newBG(ver, nSE)
 	p := writeTmp(im.Bytes)
 	var err error
 	pan, msg := gal.Recover(func() { err = b.CreateIBBSegments(uint8(seIdx), flags, p) })
+	otherTouched := -1
 	if !pan && err == nil && seIdx < nSE {
 		got = getSegs(b, ver, seIdx)
+		for k := 0; k < nSE; k++ {
+			if k != seIdx && len(getSegs(b, ver, k)) != 0 {
+				otherTouched = k
+			}
+		}
 	}
 	in := segInput{Image: im.Name, Layout: im.Lay, Len: len(im.Bytes), Ver: ver, Flags: flags, Fit: im.Fit, Cbfs: im.Cbfs, Extra: fmt.Sprintf("se=%d/%d panic=%q err=%v", seIdx, nSE, msg, err)}
 	if len(in.Fit) > 24 {
@@ -683,7 +695,9 @@ func caseSegments(im *image) (ver int, got []seg, ok bool) {
 	case err != nil:
 		ctx.OracleFail(idx, "CreateIBBSegments fails on a valid image: "+err.Error(), siteSeg, in)
 	case !segsEqual(got, want):
-		ctx.OracleFail(idx, fmt.Sprintf("segment list differs from one segment per startup entry in FIT order: got %v want %v", got, want), siteSeg, in)
+		ctx.OracleFail(idx, fmt.Sprintf("segment list of SE[%d] differs from one segment per startup entry in FIT order: got %v want %v", seIdx, got, want), siteSeg, in)
+	case otherTouched >= 0:
+		ctx.OracleFail(idx, fmt.Sprintf("CreateIBBSegments(seElement=%d) also wrote segments into SE[%d]", seIdx, otherTouched), siteSeg, in)
 	default:
 		ctx.OracleOK()
 		ok = true
@@ -733,9 +747,9 @@ func randomSegs(im *image, allowOutside bool) []seg {
 }
 
 type digestResult struct {
-	ok      bool   // the call returned a digest
-	digest  []byte
-	d9      bool // the digest is wrong and the tail-offset formula explains it
+	ok     bool // the call returned a digest
+	digest []byte
+	d9     bool // the digest is wrong and the tail-offset formula explains it
 }
 
 func caseDigest(im *image, ver int, segs []seg, algIdx int) digestResult {
@@ -1051,12 +1065,12 @@ func caseStitch(im *image) {
 
 	// ---- oracle ----
 	type target struct {
-		e        fitEnt
-		new      []byte
-		off      int  // property-text offset of the entry's region
-		size     int  // size of the region
-		valid    bool // region inside the image
-		tooBig   bool
+		e      fitEnt
+		new    []byte
+		off    int  // property-text offset of the entry's region
+		size   int  // size of the region
+		valid  bool // region inside the image
+		tooBig bool
 	}
 	var ts []target
 	if im.FitOK {
@@ -1195,7 +1209,9 @@ func probes() {
 	putFIT(im.Bytes, n-0x800, im.Fit)
 	b := newBG(2, 1, 11)
 	setSegs(b, 2, []seg{{uint32(im.phys(0x1000)), 0x100, 0}})
-	d, err := b.GetIBBsDigest(im.Bytes, "SHA256")
+	var d []byte
+	var err error
+	gal.Recover(func() { d, err = b.GetIBBsDigest(im.Bytes, "SHA256") })
 	want := sha256.Sum256(im.Bytes[0x1000:0x1100])
 	tail := sha256.Sum256(im.Bytes[0x3000:0x3100])
 	ctx.Probe(kD9, err == nil && !bytes.Equal(d, want[:]) && bytes.Equal(d, tail[:]),
@@ -1214,10 +1230,13 @@ func probes() {
 	// SM3 name round trip
 	b3 := newBG(2, 1, 18)
 	p3 := writeTmp(im.Bytes)
-	_ = b3.CreateIBBSegments(0, 0, p3)
-	err = b3.CreateIBBDigest(p3)
-	_, derr := b3.GetIBBsDigest(im.Bytes, "SM3")
-	ctx.Probe(kSM3, err != nil && derr == nil, "CreateIBBDigest on a CBnT manifest whose digest list holds SM3 fails with 'algorithm name provided unknown' (Algorithm.String() gives SM3_256, GetAlgFromString wants SM3) while GetIBBsDigest(image, \"SM3\") works")
+	var derr error
+	pan3, _ := gal.Recover(func() {
+		setSegs(b3, 2, []seg{{uint32(im.phys(0x1000)), 0x100, 0}})
+		err = b3.CreateIBBDigest(p3)
+		_, derr = b3.GetIBBsDigest(im.Bytes, "SM3")
+	})
+	ctx.Probe(kSM3, !pan3 && err != nil && derr == nil, "CreateIBBDigest on a CBnT manifest whose digest list holds SM3 fails with 'algorithm name provided unknown' (Algorithm.String() gives SM3_256, GetAlgFromString wants SM3) while GetIBBsDigest(image, \"SM3\") works")
 }
 
 // ------------------------------------------------------------------ main
